@@ -55,6 +55,7 @@ WEIGHTS = {'set': 16, 'add': 8, 'get': 12, 'touch': 9, 'delete': 6, 'incr': 11, 
 HAS_TIMEOUT = ('add', 'set', 'touch', 'set_many', 'get_or_set')
 IMPORTS = ['DCPrelude', 'ArgsKeyBase', 'DjangoBase', 'Gen_Django', 'Django']
 SHRINK_PER_SIG = 2
+MAX_DISAGREEMENTS = 6
 
 _uid = [0]
 
@@ -916,7 +917,7 @@ def correspondence(ctx, res, hists, limit, group=15):
         if h[1]:
             chosen.append(h)
             total += len(h[1])
-    shown = 0
+    shown = nbad = 0
     for g0 in range(0, len(chosen), group):
         part = chosen[g0:g0 + group]
         defs, checks, where = [], [], []
@@ -925,6 +926,10 @@ def correspondence(ctx, res, hists, limit, group=15):
             for i, (op, rec) in enumerate(zip(ops, recs)):
                 term = c_result(rec['impl'])
                 if term is None:
+                    nbad += 1
+                    if shown >= MAX_DISAGREEMENTS:
+                        continue
+                    shown += 1
                     res.disagreements.append(fw.Violation(
                         'dj_step', '%s: DjangoCache -> %s, a result the model cannot produce' % (show_op(op), show(rec['impl'])),
                         {'check': 'history', 'params': params, 'ops': ops[:i + 1], 'failing_index': i, 'impl': rec['impl']},
@@ -939,18 +944,20 @@ def correspondence(ctx, res, hists, limit, group=15):
                                                   {'check': 'model-eval', 'group': g0}, 'correspondence'))
         if not errors:
             res.traces_validated += len(checks) - len(bad)
-        for b in bad[:8]:
+        nbad += len(bad)
+        for b in bad:
+            if shown >= MAX_DISAGREEMENTS:      # the first few say it all; the total is in extra
+                break
             n, params, ops, recs, i = where[b]
-            m = '?'
-            if shown < 5:
-                shown += 1
-                m = model_result(defs, n, i)
+            shown += 1
+            m = model_result(defs, n, i)
             res.disagreements.append(fw.Violation(
                 'dj_step', '%s (cfg %r, call %d): DjangoCache -> %s, model dj_step -> %s' % (
                     show_op(ops[i]), cfg_of(params), i, show(recs[i]['impl']), m),
                 {'check': 'history', 'params': params, 'ops': ops[:i + 1], 'failing_index': i, 'impl': recs[i]['impl'],
                  'model': m}, 'correspondence'))
     res.extra['correspondence_histories'] = len(chosen)
+    res.extra['correspondence_calls_disagreeing'] = nbad
     res.extra['correspondence_calls'] = total
     if chosen:
         params, ops, recs = chosen[min(len(chosen) - 1, len(directed()))]
@@ -959,7 +966,7 @@ def correspondence(ctx, res, hists, limit, group=15):
 
 
 RULE = (
-    'Generator: histories of 20-32 calls (plus ~40 directed histories) on a fresh DjangoCache with SHARDS in {1,2,3}, TIMEOUT in '
+    'Generator: histories of 20-32 calls (plus 27 directed histories) on a fresh DjangoCache with SHARDS in {1,2,3}, TIMEOUT in '
     '{300, None, 5, 7, rarely 0}, KEY_PREFIX in {"", "p", "a:b"}, VERSION in {1,2}; calls drawn from add/get/set/touch/delete/incr/'
     'decr/has_key/get_many/set_many/delete_many/get_or_set/incr_version/decr_version/pop/clear over keys {a,b,c,a:1,1:a} (biased to '
     'keys the reference holds) x versions {None,1,2, rarely 0,3} x timeouts {DEFAULT_TIMEOUT (passed or omitted), None, 0, -1, 5}, '
@@ -980,11 +987,11 @@ def run(ctx):
     res = fw.Result()
     res.rule = RULE
     if ctx.quick:
-        hists = monitor(ctx, res, 100, 22, 30)
+        hists = monitor(ctx, res, 250, 22, 30)
         limit = 1500
     else:
-        hists = monitor(ctx, res, 1000, 22, 32)
-        limit = 6000
+        hists = monitor(ctx, res, 4000, 22, 32)
+        limit = 15000
     # directed histories first, then a spread of the generated ones
     correspondence(ctx, res, hists, limit)
     res.witnessed[KNOWN] = witness_incr_at_expiry()
@@ -994,7 +1001,7 @@ def run(ctx):
 def search(ctx, broken):
     res = fw.Result()
     res.rule = RULE
-    monitor(ctx, res, 180 if ctx.quick else 900, 22, 34)
+    monitor(ctx, res, 400 if ctx.quick else 3000, 22, 34)
     res.witnessed[KNOWN] = witness_incr_at_expiry()
     return res
 
